@@ -257,6 +257,8 @@ def run_probe(spec_name, rlimit=5):
         except Exception: continue
         if d.get("level") != "error" or d.get("message", "").startswith("aborting due to"): continue
         hit = False
+        if classify(d.get("message", "")) == "frontend":
+            other.append(d.get("message", "")[:200]); continue      # the probe unit does not compile: not a refutation
         for sp in d.get("spans", []):
             ln = sp.get("line_start")
             o = out.map[ln - 1] if ln and 0 < ln <= len(out.map) else ("unknown",)
@@ -277,8 +279,9 @@ def run_probe(spec_name, rlimit=5):
         if not hit: other.append(d.get("message", "")[:200])
     res["refuted"] = len([f for f in probes if f in failed])
     res["vacuous"] = sorted(set(probes) - failed)
-    if classify(" ".join(other)) == "frontend" and other and not failed:
-        res["status"] = "undecided"; res["note"] = "probe unit did not compile: " + "; ".join(other[:3])
+    if any(classify(o_) == "frontend" for o_ in other):
+        # the probe unit itself does not compile (the changed code left the Verus subset): nothing can be said about vacuity
+        res["status"] = "undecided"; res["note"] = "probe unit did not compile: " + "; ".join(other[:3]); res["vacuous"] = []
     elif res["vacuous"]:
         res["status"] = "vacuous"
     if pcache:
